@@ -20,6 +20,26 @@ def is_svd_site(t):
     return False
 
 
+def forall_finite_target(c):
+    """('forall', iterator, cond, truth) that says every element of a matrix is finite -> matrix"""
+    _, it, cond, truth = c
+    neg = not truth
+    while cond[0] == "un" and cond[1] == "Not":
+        cond, neg = cond[2], not neg
+    while it[0] in ("mutated",):
+        it = it[1]
+    if it[0] == "phi":
+        alts = [x for x in it[1] if x[0] != "loopback"]
+        it = alts[0] if alts else it
+        while it[0] == "mutated":
+            it = it[1]
+    if it[0] == "call" and it[1].rsplit("::", 1)[-1] in ("iter", "into_iter", "iter_mut") and cond[0] == "call" and cond[1].endswith("::is_finite") and not neg:
+        arg = cond[3][0]
+        if arg[0] == "elem":
+            return it[3][0]
+    return None
+
+
 def finite_pred_target(ev, P, negated=False):
     """if P is a recognised 'all elements finite' predicate return the matrix term it ranges
     over, else None"""
@@ -94,6 +114,8 @@ def rule_svd_finite(F, ev_unused, R, config, rule="R-SVD-FINITE"):
                 for term, truth, sw in raw:
                     if isinstance(truth, bool):
                         conds.add(("pred", term if truth else ("un", "Not", term)))
+                for fa in foralls_at(g, bi):
+                    conds.add(fa)
                 recs = [(("call", "", None, (arg,), None), frozenset(conds))]
             if not recs:
                 R.bad(rule, config, b.key, inst,
@@ -104,10 +126,13 @@ def rule_svd_finite(F, ev_unused, R, config, rule="R-SVD-FINITE"):
                 arg = ct[3][0]
                 ok = False
                 for c in conds:
+                    X = None
                     if c[0] == "pred":
                         X = finite_pred_target(ev, c[1])
-                        if X is not None and X == arg:
-                            ok = True
+                    elif c[0] == "forall":
+                        X = forall_finite_target(c)
+                    if X is not None and X == arg:
+                        ok = True
                 R.add(rule, config, b.key, inst, ok,
                       "argument %s checked finite before decomposition" % short(arg)[:120] if ok else
                       ("SVD of `%s` without a preceding all-elements-finite check of that same matrix: nalgebra's SVD "
